@@ -208,6 +208,20 @@ func (e *env) kitFollowUps(doc *dumpDoc) {
 			continue
 		}
 		switch n.T {
+		case "A", "O", "N", "M", "S", "U":
+			// re-use of the surviving object by built-ins that keep per-Runtime auxiliary state
+			var str string
+			o := e.apiCall("reuse "+name, false, func() (goja.Value, error) {
+				res, err := e.helpers["reuse"](goja.Undefined(), v)
+				if err == nil && res != nil {
+					str = res.String()
+				}
+				return nil, err
+			})
+			out, _ := e.classify(o)
+			e.ev(fmt.Sprintf("K:%s:reuse:%s:%s", name, out, str))
+		}
+		switch n.T {
 		case "F":
 			if strings.HasPrefix(n.Src, "class") {
 				if ct, ok := goja.AssertConstructor(v); ok {
